@@ -208,3 +208,9 @@ class Deco:
 
 def ann_union_none_default(key: Union[int, str] = None, other=None):  # noqa: RUF013
     return key
+
+
+class WithCached:
+    @functools.cached_property
+    def cached(self):
+        return 1
